@@ -701,7 +701,8 @@ def relation_held(text, val):
     (lhs, rel, rhs) with rel in {'<', '<=', '==', '!='}; `>`/`>=` are written with swapped sides and `==`/`!=` with the
     sides in text order sorted, so `a < b` taken, `b > a` taken, `a >= b` not taken and `b <= a` not taken all agree.
     None when the text is not a top-level binary comparison."""
-    if not (text.startswith("(") and text.endswith(")")) or val is None:
+    # (val None is the switch's "otherwise" edge; on a comparison's bool that is the true edge, as rustc lowers `if`)
+    if not (text.startswith("(") and text.endswith(")")):
         return None
     depth = 0
     inner = text[1:-1]
